@@ -333,8 +333,7 @@ func init() {
 			"the pinned runtime's documented string cast (exporter.CastToString) is re-stated in the model for the YAML literal types",
 		},
 		BudgetQuick: 280 * time.Second, BudgetThorough: 1500 * time.Second,
-		Prepare:     PrepareUniverse,
-		CaseTimeout: 900 * time.Second,
+		Prepare: PrepareUniverse,
 		Run: func(w *W) {
 			L := 5
 			if !w.Env.Quick() {
